@@ -275,6 +275,71 @@ def edited_twins(cases):
             out.append(t)
     return out
 
+
+def typed_field_kind_cases(which):
+    """every TYPED field of headers, keys, claims sets and KDF contexts x (a) every kind of value, (b) a valid value of
+    the field WRAPPED in something (one-element array, pair, tag 1 / 24, map value, encoded in a byte string, text):
+    a field accepts exactly its own type, never a container or spelling that merely holds one"""
+    out = []
+    def wraps(v):
+        return [("valid", v), ("array-1", A(v)), ("array-2", A(v, v)), ("tag1", G(1, v)), ("tag24", G(24, v)), ("tag24-bstr", G(24, B(enc(v)))),
+                ("map-value", M((I(0), v))), ("bstr-encoded", B(enc(v))), ("array-array", A(A(v)))]
+    def emit(ty, b, fam):
+        out.append(case("dec", ty, b, fam="typed-field-kind:" + fam, strict_err=True))
+    if "Header" in which:
+        fields = [(1, I(-7)), (1, T("a")), (2, A(I(1))), (3, I(60)), (3, T("a/b")), (4, B(b"k")), (5, B(b"i")), (6, B(b"p")), (7, A(B(b""), M(), B(b"s")))]
+        for lab, v in fields:
+            for wn, w in wraps(v) + VALUE_KINDS:
+                h = M((I(lab), w))
+                emit("Header", enc(h), "header-%d:%s" % (lab, wn))
+                emit("CoseSign1", enc(A(B(enc(h)), M(), NULL, B(b""))), "protected-%d:%s" % (lab, wn))
+                emit("CoseMac", enc(A(B(b""), M(), NULL, B(b""), A(A(B(b""), h, NULL)))), "recipient-%d:%s" % (lab, wn))
+    if "CoseKey" in which:
+        fields = [(1, I(4)), (1, T("a")), (2, B(b"k")), (3, I(-7)), (3, T("a")), (4, A(I(1))), (4, A(T("a"))), (5, B(b"i"))]
+        for lab, v in fields:
+            for wn, w in wraps(v) + VALUE_KINDS:
+                k = M((I(lab), w)) if lab == 1 else M((I(1), I(4)), (I(lab), w))
+                emit("CoseKey", enc(k), "key-%d:%s" % (lab, wn))
+                emit("CoseKeySet", enc(A(k)), "keyset-%d:%s" % (lab, wn))
+    if "ClaimsSet" in which:
+        fields = [(1, T("i")), (2, T("s")), (3, T("a")), (4, I(10)), (4, ("f", 0x3ff8000000000000)), (5, I(10)), (6, I(10)), (7, B(b"c"))]
+        for lab, v in fields:
+            for wn, w in wraps(v) + VALUE_KINDS:
+                emit("ClaimsSet", enc(M((I(lab), w))), "claim-%d:%s" % (lab, wn))
+                emit("ClaimsSet", enc(M((I(1 if lab != 1 else 2), T("o")), (I(lab), w))), "claim-among-%d:%s" % (lab, wn))
+    if "CoseKdfContext" in which:
+        base = [I(1), A(NULL, NULL, NULL), A(NULL, NULL, NULL), A(I(128), B(b""))]
+        comps = [(0, 0, I(1)), (0, 0, T("a")), (1, 0, B(b"id")), (1, 1, B(b"n")), (1, 1, I(5)), (1, 2, B(b"o")), (2, 0, B(b"id")), (3, 0, I(128)), (3, 1, B(b"\xa1\x01\x26")), (3, 1, B(b""))]
+        for slot, sub, v in comps:
+            for wn, w in wraps(v) + VALUE_KINDS:
+                items = list(base)
+                if slot == 0: items[0] = w
+                else:
+                    inner = list(items[slot][1]); inner[sub] = w; items[slot] = ('a', inner)
+                emit("CoseKdfContext", enc(('a', items)), "kdf-%d.%d:%s" % (slot, sub, wn))
+                if slot in (1, 2):
+                    pi = [NULL, NULL, NULL]; pi[sub] = w
+                    emit("PartyInfo", enc(('a', pi)), "party-%d:%s" % (sub, wn))
+                if slot == 3:
+                    sp = [I(128), B(b"")]; sp[sub] = w
+                    emit("SuppPubInfo", enc(('a', sp)), "supp-%d:%s" % (sub, wn))
+    return out
+
+def bignum_toplevel_cases():
+    """integers in bignum spelling (tag 2 / 3 over a byte string), which the CBOR layer folds into plain integers, at the
+    TOP LEVEL of every integer-or-text type, through the byte and the Value entry points, alone, with a suffix and cut short"""
+    out = []
+    tys = ("Label", "RegP:Algorithm", "RegP:CwtClaimName", "RegP:HeaderParameter", "RegP:EllipticCurve", "Reg:KeyType", "Reg:CoapContentFormat",
+           "Reg:KeyOperation", "Reg:HeaderParameter", "Value")
+    for n in (0, 1, 4, 5, 23, 24, 60, 255, 256, 65536, 2**32, 2**63 - 1, 2**63, 2**64 - 1, -1, -7, -8, -25, -257, -65537, -2**63, -2**63 - 1, -2**64):
+        for e in int_encodings(n):
+            for ty in tys:
+                out.append(case("dec", ty, e, fam="base", key=(ty, e), strict_err=True))
+                out.append(case("decval", ty, e, fam="api-decode", key=(ty, e), impl_only=True))
+                out.append(case("dec", ty, e + b"\x00", fam="suffix", key=(ty, e), strict_err=True))
+                if len(e) > 1: out.append(case("dec", ty, e[:-1], fam="prefix", key=(ty, e)))
+    return out
+
 # ================================================================= C16
 def label_palette():
     ints = sorted(set(x for x in LATTICE if -2**63 <= x < 2**63) | {2, 10, 22, 25, 100, 1000, -2, -10, -23, -26, -100, -1000,
@@ -569,6 +634,7 @@ def cases_C15(rng, tier):
                         out.append(case("rt", "CoseKeySet", b, fam="keyset-member-range-ok", expect="ok %s T T" % b.hex()))
                     else:
                         out.append(case("dec", "CoseKeySet", b, fam="keyset-member-range-inr", strict_err=True))
+    out += [c for c in bignum_toplevel_cases() if c["fam"] == "base"]
     return out
 
 # ================================================================= C14
@@ -742,6 +808,7 @@ def cases_C13(rng, tier):
     out += wrapped_body_cases(rng)
     out += depth_sweep_cases(("Header", "CoseKey", "CoseKeySet", "ClaimsSet", "CoseSign1", "CoseEncrypt0", "CoseMac", "CoseSign"))
     out += protected_nesting_cases(api=True)
+    out += bignum_toplevel_cases()
     return out
 
 def post_C13(cases, impl):
@@ -1354,6 +1421,7 @@ def cases_C08(rng, tier):
     out += [c for c in wrapped_body_cases(rng) if c["line"].split()[1] == "Header"]
     out += depth_sweep_cases(("Header", "CoseSign1", "CoseEncrypt0", "CoseMac", "CoseSign"))
     out += protected_nesting_cases()
+    out += typed_field_kind_cases(("Header",))
     return out
 
 def post_groups(cases, impl):
@@ -1469,6 +1537,7 @@ def cases_C10(rng, tier):
     out += value_kind_cases(("CoseKey",))
     out += [c for c in wrapped_body_cases(rng) if c["line"].split()[1] in ("CoseKey", "CoseKeySet")]
     out += depth_sweep_cases(("CoseKey", "CoseKeySet"))
+    out += typed_field_kind_cases(("CoseKey",))
     return out
 
 # ================================================================= C18
@@ -1512,6 +1581,7 @@ def cases_C18(rng, tier):
     out += value_kind_cases(("ClaimsSet",))
     out += [c for c in wrapped_body_cases(rng) if c["line"].split()[1] in ("ClaimsSet", "CoseKdfContext")]
     out += depth_sweep_cases(("ClaimsSet",))
+    out += typed_field_kind_cases(("ClaimsSet", "CoseKdfContext"))
     return out
 
 # ================================================================= C11
